@@ -1,6 +1,8 @@
 package main
 
 import (
+	"go/types"
+
 	"golang.org/x/tools/go/ssa"
 )
 
@@ -11,6 +13,41 @@ func init() {
 		}
 		m["github.com/cosmos/gogoproto/proto.CompactTextString"] = func(ex *Exec, fr *frame, cc *ssa.CallCommon, a []Value) Value {
 			return ex.freshAtom("prototext")
+		}
+		m["reflect.TypeOf"] = func(ex *Exec, fr *frame, cc *ssa.CallCommon, a []Value) Value {
+			iv := a[0].(VIface)
+			return VIface{Typ: errMarkerType, V: VOpaque{Kind: "rtype", Data: iv.Typ}}
+		}
+		m["invoke:reflect.Type.Kind"] = func(ex *Exec, fr *frame, cc *ssa.CallCommon, a []Value) Value {
+			t, _ := a[0].(VIface).V.(VOpaque).Data.(types.Type)
+			if t == nil {
+				panic(goPanic{"reflect: Kind of nil type"})
+			}
+			// reflect.Kind numbering
+			switch u := t.Underlying().(type) {
+			case *types.Basic:
+				switch {
+				case u.Info()&types.IsBoolean != 0:
+					return VInt{IntC(1)}
+				case u.Info()&types.IsString != 0:
+					return VInt{IntC(24)}
+				case u.Kind() == types.Uint8:
+					return VInt{IntC(8)}
+				case u.Kind() == types.Uint64:
+					return VInt{IntC(11)}
+				case u.Kind() == types.Int64:
+					return VInt{IntC(6)}
+				}
+			case *types.Slice:
+				return VInt{IntC(23)}
+			case *types.Array:
+				return VInt{IntC(17)}
+			case *types.Pointer:
+				return VInt{IntC(22)}
+			case *types.Struct:
+				return VInt{IntC(25)}
+			}
+			panic(unsupported{"reflect Kind of " + t.String()})
 		}
 		m["cosmossdk.io/log.NewNopLogger"] = func(ex *Exec, fr *frame, cc *ssa.CallCommon, a []Value) Value {
 			return VIface{Typ: loggerType, V: VOpaque{Kind: "logger"}}
